@@ -329,13 +329,14 @@ theorem rdInt_progress {bs : Bytes} {v : Int} {r : Bytes} (h : rdInt bs = .ok (v
   · rename_i x heq; cases h; exact readUvarintAsInt_progress bs _ _ heq
   · cases h
 
-/-- `Decoder.readCountedString`: `buffer.read(n)` slices `data[off:off+n]` and therefore
-    panics on a negative count. -/
+/-- `Decoder.readCountedString`: a negative count is refused before `buffer.read(n)` (which
+    slices `data[off:off+n]`) is reached. -/
 def rdCounted (bs : Bytes) : Except DErr (Bytes × Bytes) :=
   match rdInt bs with
   | .error e => .error e
   | .ok (n, r) =>
-    if n < 0 then .error (.panic "buffer-read-negative-length")
+    -- `err != nil || n < 0` → errBadFormat (the sign test: repo commit 0b09f99cc)
+    if n < 0 then .error .bad
     else if !hasLen r n.toNat then .error .bad
     else .ok (r.take n.toNat, r.drop n.toNat)
 
